@@ -221,9 +221,15 @@ pub fn check_inner(sub: &str, g: &G, toks: &[char], gap_seed: u64, l: &mut Local
         *log.borrow_mut() = Some(it.log.clone());
         it
     };
+    // the plain (and the boxed) Stream over an iterator that, like a lexer, cannot say how many items are left
+    let mk_loose = || {
+        let it = CountIter::loose(toks);
+        *log.borrow_mut() = Some(it.log.clone());
+        it
+    };
     let after = |_: &str| pulls_ok(&log, n);
-    kind!("stream", one_kind::<CountStream>(g, &|| Stream::from_iter(mk_iter()), &sm_idx, 0, &base, &after, l));
-    kind!("stream_boxed", one_kind::<BoxStream>(g, &|| Stream::from_iter(mk_iter()).boxed(), &sm_idx, 0, &base, &after, l));
+    kind!("stream", one_kind::<CountStream>(g, &|| Stream::from_iter(mk_loose()), &sm_idx, 0, &base, &after, l));
+    kind!("stream_boxed", one_kind::<BoxStream>(g, &|| if n % 2 == 0 { Stream::from_iter(mk_loose()).boxed() } else { Stream::from_iter(mk_iter()).boxed() }, &sm_idx, 0, &base, &after, l));
     kind!("stream_exact_size_boxed", one_kind::<BoxExactStream>(g, &|| Stream::from_iter(mk_iter()).exact_size_boxed(), &sm_idx, 0, &base, &after, l));
     // token-with-span inputs (gapped spans)
     {
@@ -295,7 +301,7 @@ pub fn check_inner(sub: &str, g: &G, toks: &[char], gap_seed: u64, l: &mut Local
 // Graphemes
 
 const GR_POOL: &[&str] = &[
-    "a", "b", " ", "\r", "\n", "\r\n", "e\u{301}", "\u{301}", "🇦", "🇧", "🇨", "👩", "\u{200d}", "👩\u{200d}👧", "🏽", "👍🏽", "\u{1100}", "\u{1161}", "\u{11a8}", "가", "\u{fe0f}", "❤\u{fe0f}", "\u{0903}", "क", "\u{094d}", "ष", "\u{0600}", "é", "𝄞", "\u{1f3f4}\u{e0067}\u{e0062}\u{e007f}", "x",
+    "a", "b", " ", "\r", "\n", "\r\n", "e\u{301}", "\u{301}", "🇦", "🇧", "🇨", "👩", "\u{200d}", "👩\u{200d}👧", "🏽", "👍🏽", "\u{1100}", "\u{1161}", "\u{11a8}", "가", "\u{fe0f}", "❤\u{fe0f}", "\u{0903}", "\u{093e}", "\u{093f}", "\u{0e33}", "ก", "क", "\u{094d}", "ष", "\u{0600}", "é", "𝄞", "\u{1f3f4}\u{e0067}\u{e0062}\u{e007f}", "x",
 ];
 
 pub fn graphemes_case(sub: &str, s: &str, l: &mut Local) -> CaseRes {
